@@ -19,25 +19,29 @@ package factor
 
 import (
 	"errors"
+	"sync"
 
 	"seata.apache.org/seata-go/pkg/datasource/sql/types"
 	"seata.apache.org/seata-go/pkg/datasource/sql/undo"
 	"seata.apache.org/seata-go/pkg/datasource/sql/undo/executor"
 )
 
-var undoExecutorHolderMap map[types.DBType]undo.UndoExecutorHolder
+var (
+	undoExecutorHolderOnce sync.Once
+	undoExecutorHolderMap  map[types.DBType]undo.UndoExecutorHolder
+)
 
 var ErrNotImplDBType = errors.New("db type executor not implement")
 
 // GetUndoExecutorHolder get exactly executor holder
 func GetUndoExecutorHolder(dbType types.DBType) (undo.UndoExecutorHolder, error) {
 	// lazy init
-	if undoExecutorHolderMap == nil {
+	undoExecutorHolderOnce.Do(func() {
 		undoExecutorHolderMap = map[types.DBType]undo.UndoExecutorHolder{
 			// todo impl oracle, mariadb, postgresql etc ...
 			types.DBTypeMySQL: executor.NewMySQLUndoExecutorHolder(),
 		}
-	}
+	})
 
 	if executorHolder, ok := undoExecutorHolderMap[dbType]; ok {
 		return executorHolder, nil
